@@ -5,7 +5,27 @@ import os, sys, hashlib, subprocess, fcntl, glob, shutil, time, json
 
 VERIF = os.path.dirname(os.path.dirname(os.path.abspath(__file__)))
 REPO = os.environ.get('VERIF_REPO', '/repo')
-BUILD = os.path.join(VERIF, '.build')
+BUILD = os.environ.get('VERIF_BUILD') or os.path.join(VERIF, '.build')
+
+
+def crate_dir(name):
+    """directory of the `subjects` / `replay` crate to build.  The registered checks use /verif/<name> as it is (path dependencies on /repo).
+    With VERIF_REPO set to another checkout (development only: lets a second pipeline run next to one that works on /repo) a copy with
+    rewritten dependency paths is kept under the build directory."""
+    src = os.path.join(VERIF, name)
+    if REPO == '/repo': return src
+    dst = os.path.join(BUILD, 'alt', name)
+    for dp, dn, fn in os.walk(src):
+        dn[:] = [d for d in dn if d not in ('target', '__pycache__')]
+        for f in fn:
+            if not (f.endswith('.rs') or f in ('Cargo.toml', 'Cargo.lock')): continue
+            a = os.path.join(dp, f); b = os.path.join(dst, os.path.relpath(a, src))
+            data = open(a).read()
+            if f == 'Cargo.toml':
+                data = data.replace('"/repo', '"' + REPO).replace('"../vendor/', '"' + os.path.join(VERIF, 'vendor') + '/').replace('"../subjects"', '"' + os.path.join(BUILD, 'alt', 'subjects') + '"')
+            if not os.path.exists(b) or open(b).read() != data:
+                os.makedirs(os.path.dirname(b), exist_ok=True); open(b, 'w').write(data)
+    return dst
 MIRFLAGS = ['-Zunpretty=mir', '-Ztrim-diagnostic-paths=no', '-C', 'debug-assertions=off', '-C', 'overflow-checks=on']
 
 
@@ -16,7 +36,7 @@ def _files():
             dn[:] = [d for d in dn if d not in ('target', '.git', 'examples', 'benches', 'tests', '.github')]
             for f in fn:
                 if f.endswith('.rs') or f in ('Cargo.toml', 'Cargo.lock'): out.append(os.path.join(dp, f))
-    sub = os.path.join(VERIF, 'subjects')
+    sub = os.path.join(VERIF, 'subjects')          # hashed from the originals (the alt copy differs only in dependency paths)
     out += glob.glob(os.path.join(sub, 'src', '*.rs')) + [os.path.join(sub, 'Cargo.toml')]
     return sorted(out)
 
@@ -67,7 +87,7 @@ def ensure_mir(verbose=True):
         # keep the cache small: drop dumps of other trees
         for old in glob.glob(os.path.join(BUILD, 'mir', '*')):
             if os.path.isdir(old) and old != d: shutil.rmtree(old, ignore_errors=True)
-        subj = os.path.join(VERIF, 'subjects')
+        subj = crate_dir('subjects')
         lockf = os.path.join(subj, 'Cargo.lock')
         if not os.path.exists(lockf): shutil.copy(os.path.join(REPO, 'Cargo.lock'), lockf)
         import concurrent.futures as cf
@@ -89,6 +109,40 @@ def ensure_mir(verbose=True):
         fcntl.flock(lock, fcntl.LOCK_UN); lock.close()
 
 
+def scan_enums(paths):
+    """{enum name: {variant name: index}} read from the sources (declaration order = discriminant, explicit `= N` honoured): the MIR dump
+    switches on integers and constructs variants by name, the link between the two is the declaration"""
+    import re
+    out = {}
+    for p in paths:
+        if not p.endswith('.rs'): continue
+        try: src = open(p).read()
+        except OSError: continue
+        src = re.sub(r'//[^\n]*', '', src); src = re.sub(r'/\*.*?\*/', '', src, flags=re.S)
+        for m in re.finditer(r'\benum\s+([A-Za-z_]\w*)\s*(?:<[^{>]*>)?\s*(?:where[^{]*)?\{', src):
+            i = m.end(); depth = 0; cur = ''; items = []
+            while i < len(src):
+                c = src[i]
+                if c in '({[<' and not (c == '<' and depth == 0 and False): depth += 1
+                elif c in ')}]>':
+                    if c == '}' and depth == 0: break
+                    depth -= 1
+                if c == ',' and depth == 0: items.append(cur); cur = ''
+                else: cur += c
+                i += 1
+            items.append(cur)
+            tab = {}; nxt = 0
+            for it in items:
+                it = re.sub(r'#\s*\[[^\]]*\]', '', it).strip()
+                mm = re.match(r'^([A-Za-z_]\w*)', it)
+                if not mm: continue
+                me = re.search(r'=\s*(-?\d+)\s*$', it)
+                if me: nxt = int(me.group(1))
+                tab[mm.group(1)] = nxt; nxt += 1
+            if tab: out.setdefault(m.group(1), {}).update(tab)
+    return out
+
+
 def load_program(need_subjects=True):
     from .engine import Program
     p = ensure_mir()
@@ -96,6 +150,7 @@ def load_program(need_subjects=True):
     P.load(p['core'], p['core_v'], 'core')
     if need_subjects: P.load(p['subj'], p['subj_v'], 'subj')
     P.tree_hash = p['hash']
+    P.enums = scan_enums(_files())
     return P
 
 
